@@ -72,21 +72,17 @@ func (v *ScriptView) GenerateDatabaseScriptCreate(tableMap map[string]*sysl.Type
 	}
 	sort.Ints(depthsFound)
 	for _, depth := range depthsFound {
-		tableNames := completedTableDepthMap[depth]
-		var lineNumbers []int32
-		var entityNames []string
-		lineNumberMap := map[int32]string{}
-		for _, tableName := range tableNames {
-			table := tableMap[tableName]
-			lineNumber := table.GetSourceContext().GetStart().GetLine() //nolint:staticcheck
-			lineNumberMap[lineNumber] = tableName
-			lineNumbers = append(lineNumbers, lineNumber)
-		}
-		sort.Slice(lineNumbers, func(i, j int) bool { return lineNumbers[i] < lineNumbers[j] })
-		for _, lineNo := range lineNumbers {
-			entityName := lineNumberMap[lineNo]
-			entityNames = append(entityNames, entityName)
-		}
+		// tables of one depth in source order; tables from different files can share a line
+		// number, so the name breaks ties (a map keyed by line number would lose a table)
+		entityNames := append([]string{}, completedTableDepthMap[depth]...)
+		sort.Slice(entityNames, func(i, j int) bool {
+			li := tableMap[entityNames[i]].GetSourceContext().GetStart().GetLine() //nolint:staticcheck
+			lj := tableMap[entityNames[j]].GetSourceContext().GetStart().GetLine() //nolint:staticcheck
+			if li != lj {
+				return li < lj
+			}
+			return entityNames[i] < entityNames[j]
+		})
 		for _, entityName := range entityNames {
 			entityType := tableMap[entityName]
 			if relEntity := entityType.GetRelation(); relEntity != nil {
